@@ -2,6 +2,8 @@ package c04
 
 import (
 	"fmt"
+
+	"github.com/robertkrimen/otto/parser"
 	"sort"
 	"strings"
 
@@ -560,10 +562,7 @@ func runEarlyErrors(r *engine.Run) {
 	// structural regular expression bodies: each early-error atom (and a few
 	// valid controls) at top level, inside every kind of group and nesting, in
 	// each alternative, after each kind of atom, and inside classes.
-	atoms := []string{"^*", "$+", "\\b?", "\\B{2}", "^{1,}", "${2,3}", "^+?", "*", "+", "?", "{2}", "{2,}", "a**", "a+*", "a?{2}", "a{1}{2}", "a{2,1}", "a{3,2}?", ")", "(", "(?", "(?a)", "(?<a)",
-		"[", "[z-a]", "[a-\\d-z]", "\\", "a|*", "(|*)", "a", "^", "$", "\\b", "a*", "a{2}", "[*]", "\\*", "(?:)", "()"}
-	places := []string{"X", "(X)", "(?:X)", "((X))", "(?:(X))", "((?:X))", "(((X)))", "(?=X)", "(?!X)", "X|b", "a|X", "a|X|b", "(a|X)", "(?:X|b)", "(a)|(X)", "aX", "\\dX", "[a]X", "(a)X", ".X", "\\bX",
-		"Xa", "X(a)", "a(X)b", "(a(X))", "(X)(X)", "(X)*", "(?:X)+", "[X]", "[^X]", "[aX]", "[X-]", "(a)\\1X", "a{2}X", "a|(X{2})", "((X)x)"}
+	atoms, places := regexAtoms, regexPlaces
 	for ai, a := range atoms {
 		for pi, pl := range places {
 			body := strings.ReplaceAll(pl, "X", a)
@@ -575,6 +574,37 @@ func runEarlyErrors(r *engine.Run) {
 	}
 	r.Bound("cases", fmt.Sprint(n))
 	h.finish("earlyerrors")
+}
+
+// structural regular expression bodies: early-error atoms (and valid controls)
+// and the placements they are put in (X).
+var regexAtoms = []string{"^*", "$+", "\\b?", "\\B{2}", "^{1,}", "${2,3}", "^+?", "*", "+", "?", "{2}", "{2,}", "a**", "a+*", "a?{2}", "a{1}{2}", "a{2,1}", "a{3,2}?", ")", "(", "(?", "(?a)", "(?<a)",
+	"[", "[z-a]", "[a-\\d-z]", "\\", "a|*", "(|*)", "a", "^", "$", "\\b", "a*", "a{2}", "[*]", "\\*", "(?:)", "()"}
+var regexPlaces = []string{"X", "(X)", "(?:X)", "((X))", "(?:(X))", "((?:X))", "(((X)))", "(?=X)", "(?!X)", "X|b", "a|X", "a|X|b", "(a|X)", "(?:X|b)", "(a)|(X)", "aX", "\\dX", "[a]X", "(a)X", ".X", "\\bX",
+	"Xa", "X(a)", "a(X)b", "(a(X))", "(X)(X)", "(X)*", "(?:X)+", "[X]", "[^X]", "[aX]", "[X-]", "(a)\\1X", "a{2}X", "a|(X{2})", "((X)x)"}
+
+// runRegexMode: parser.IgnoreRegExpErrors (not the mode of Otto.Run) only
+// waives RE2 compatibility: a body that 15.10.1 rejects must still be rejected,
+// in particular when it also contains a look-ahead or a back-reference.
+func runRegexMode(r *engine.Run) {
+	h := newHarness(r, 64)
+	h.mode = parser.IgnoreRegExpErrors
+	around := []string{"B", "(?=a)B", "B(?=a)", "(?!a)B", "B(?!a)", "(a)\\1B", "B(a)\\1", "(?:(?=a)B)", "a|(?=b)B", "(?=a)|B", "(?=B)", "(?=a)(B)", "\\1(B)"}
+	for ai, a := range regexAtoms {
+		for pi, pl := range regexPlaces {
+			body := strings.ReplaceAll(pl, "X", a)
+			for wi, w := range around {
+				if wi > 0 && pi > 8 && !r.Thorough() {
+					continue // quick: the incompatible neighbours with the first nine placements
+				}
+				if k := fmt.Sprintf("%d/%d/%d", ai, pi, wi); mine(r, k) {
+					h.one(k, "x = /"+strings.ReplaceAll(w, "B", body)+"/ ;")
+				}
+			}
+		}
+	}
+	r.Bound("mode", "parser.IgnoreRegExpErrors")
+	h.finish("regexmode")
 }
 
 // runLexErrors: every lexical early error as one token, followed - across each
